@@ -136,6 +136,20 @@ func (m *c5mirror) apply(o c5op) (string, string) {
 		}
 	}
 	byID := o.Kind == "AddAfter" || o.Kind == "AddBefore" || o.Kind == "Remove"
+	if byID && len(matches) > 1 {
+		// Several tasks carry the id. Which of them "the task with that id" is, the statement does not say;
+		// but every id-addressed operation must mean the same one: the task Get(id) returns.
+		if g := m.q.Get(o.ID); g != nil {
+			gu := c5uid(g)
+			for _, p := range matches {
+				if m.ref[p].uid == gu {
+					matches = []int{p}
+					m.dupOps++
+					break
+				}
+			}
+		}
+	}
 	if byID {
 		switch {
 		case len(matches) == 0:
@@ -480,7 +494,13 @@ func TestC05Loop(t *testing.T) {
 				}
 			}
 			for k := rng.IntN(3); k > 0; k-- {
-				st.Ext = append(st.Ext, c5op{Kind: []string{"AddFirst", "AddLast", "RemoveLast", "AddAfterCur", "AddBeforeCur"}[rng.IntN(5)]})
+				kinds := []string{"AddFirst", "AddLast", "RemoveLast", "AddAfterCur", "AddBeforeCur"}
+				if c.Index%3 == 1 {
+					// duplicated ids (see below): the public AddAfter/AddBefore address a task by id, so "relative to
+					// the current task" is not expressible; the results of the handler are what is examined there
+					kinds = kinds[:3]
+				}
+				st.Ext = append(st.Ext, c5op{Kind: kinds[rng.IntN(len(kinds))]})
 			}
 			if rng.IntN(6) == 0 {
 				st.Delay = time.Duration(1+rng.IntN(3)) * time.Second
@@ -496,7 +516,18 @@ func TestC05Loop(t *testing.T) {
 			q.WithName("loop")
 			var ref []c5item
 			next := 0
-			mk := func() *c5task { tk := c5new(next, fmt.Sprintf("t%d", next)); next++; return tk }
+			// every third case: ids come from a pool of two, so the queue holds several tasks with the id of
+			// the task being handled; results (remove on Success, AfterTasks) concern the handled task itself
+			dupIDs := c.Index%3 == 1
+			mk := func() *c5task {
+				id := fmt.Sprintf("t%d", next)
+				if dupIDs {
+					id = fmt.Sprintf("d%d", next%2)
+				}
+				tk := c5new(next, id)
+				next++
+				return tk
+			}
 			for i := 0; i < nInit; i++ {
 				tk := mk()
 				q.AddLast(tk)
